@@ -33,6 +33,9 @@ type c12Layout struct {
 	Cto       int32  `json:"cto"`             // composition offset of the first sample
 	LeadIn    int    `json:"lead_in"`         // unused bytes at the start of each mdat payload
 	AudioOnly bool   `json:"audio_only,omitempty"`
+	// AudioFirst (two tracks): track 1 is the audio track (timescale 600) and track 2 the video track that carries the
+	// partition; the reference track of an index is the video track wherever it stands
+	AudioFirst bool `json:"audio_first,omitempty"`
 	// Form of the reference track's runs: 0 explicit durations, one trun per traf; 1 uniform durations carried by
 	// the tfhd default; 2 uniform durations carried by the trex default; 3 two truns per traf (explicit); 4 two
 	// truns per traf with the tfhd default duration
@@ -82,9 +85,16 @@ func c12Build(l *c12Layout) *c12Built {
 	case 2:
 		spec.Defaults = 2
 	}
-	spec.Tracks = append(spec.Tracks, gen.FTrack{ID: 1, Timescale: 1000, Media: media, BaseTime: l.Base})
-	if l.Tracks == 2 {
-		spec.Tracks = append(spec.Tracks, gen.FTrack{ID: 2, Timescale: 1000, Media: "audio", BaseTime: l.Base})
+	refID, otherID := uint32(1), uint32(2)
+	if l.AudioFirst && l.Tracks == 2 {
+		refID, otherID = 2, 1
+		spec.Tracks = append(spec.Tracks, gen.FTrack{ID: 1, Timescale: 600, Media: "audio", BaseTime: l.Base})
+		spec.Tracks = append(spec.Tracks, gen.FTrack{ID: 2, Timescale: 1000, Media: "video", BaseTime: l.Base})
+	} else {
+		spec.Tracks = append(spec.Tracks, gen.FTrack{ID: 1, Timescale: 1000, Media: media, BaseTime: l.Base})
+		if l.Tracks == 2 {
+			spec.Tracks = append(spec.Tracks, gen.FTrack{ID: 2, Timescale: 1000, Media: "audio", BaseTime: l.Base})
+		}
 	}
 	fi := 0
 	for _, nf := range l.Shape {
@@ -105,16 +115,16 @@ func c12Build(l *c12Layout) *c12Built {
 				}
 				ss = append(ss, s)
 			}
-			fr := gen.FFragment{Runs: []gen.FRun{{TrackID: 1, Samples: ss}}, LeadIn: l.LeadIn}
+			fr := gen.FFragment{Runs: []gen.FRun{{TrackID: refID, Samples: ss}}, LeadIn: l.LeadIn}
 			split := (l.Form == 3 || l.Form == 4) && len(ss) == 2
 			if split {
-				fr.Runs = []gen.FRun{{TrackID: 1, Samples: ss[:1]}}
+				fr.Runs = []gen.FRun{{TrackID: refID, Samples: ss[:1]}}
 			}
 			if l.Tracks == 2 {
-				fr.Runs = append(fr.Runs, gen.FRun{TrackID: 2, Samples: []gen.FSample{{Dur: 5, Size: 2, Flags: gen.FlagsSync}}})
+				fr.Runs = append(fr.Runs, gen.FRun{TrackID: otherID, Samples: []gen.FSample{{Dur: 5, Size: 2, Flags: gen.FlagsSync}}})
 			}
 			if split {
-				fr.Runs = append(fr.Runs, gen.FRun{TrackID: 1, Samples: ss[1:]})
+				fr.Runs = append(fr.Runs, gen.FRun{TrackID: refID, Samples: ss[1:]})
 			}
 			fr.Emsg = l.Emsg == 2 || (l.Emsg == 1 && k == 0)
 			sg.Fragments = append(sg.Fragments, fr)
@@ -126,7 +136,7 @@ func c12Build(l *c12Layout) *c12Built {
 	b := &c12Built{InitLen: len(ff.Init)}
 	// per-segment durations of the reference track (track 1)
 	b.SegDur = make([]uint64, len(l.Shape))
-	for _, t := range ff.Truth[1] {
+	for _, t := range ff.Truth[refID] {
 		b.SegDur[t.Seg] += uint64(t.Dur)
 	}
 	b.EPT = uint64(int64(l.Base) + int64(l.Cto))
@@ -476,6 +486,7 @@ func c12CheckSidx(c *vf.Ctx, cs *c12Case, nz bool, how string, f *mp4.File, out 
 	}
 	n := int(be.Uint16(q[2:]))
 	q = q[4:]
+	sidxTimescale := be.Uint32(p[8:])
 	// the segments as the output presents them: walk top-level boxes after the index; a segment starts at a styp,
 	// or (without styp) where the library's own partition says. The library's partition is taken from f.
 	type sref struct {
@@ -542,6 +553,12 @@ func c12CheckSidx(c *vf.Ctx, cs *c12Case, nz bool, how string, f *mp4.File, out 
 	for _, t := range f.Init.Moov.Mvex.Trexs {
 		if t.TrackID == refID {
 			trex = t
+		}
+	}
+	for _, tr := range f.Init.Moov.Traks {
+		if tr.Tkhd.TrackID == refID && tr.Mdia.Mdhd.Timescale != sidxTimescale {
+			c.Fail("sidx timescale", "the index is in the timescale of the reference track (the video track if there is one)", det(fmt.Sprintf("sidx %d, track %d has %d", sidxTimescale, refID, tr.Mdia.Mdhd.Timescale)))
+			return "violation"
 		}
 	}
 	for _, seg := range f.Segments {
@@ -682,6 +699,9 @@ func c12Layouts(thorough bool) []*c12Layout {
 									continue
 								}
 								out = append(out, &c12Layout{Shape: sh, Tracks: tracks, Mech: mech, Emsg: emsg, SegSidx: ss, Base: uint64(tm[0]), Cto: int32(tm[1]), LeadIn: lead})
+								if tracks == 2 && (thorough || (lead == 0 && emsg == 0 && ss == 0)) {
+									out = append(out, &c12Layout{Shape: sh, Tracks: tracks, Mech: mech, Emsg: emsg, SegSidx: ss, Base: uint64(tm[0]), Cto: int32(tm[1]), LeadIn: lead, AudioFirst: true})
+								}
 								if (mech == "sidx" || mech == "sidx2") && (thorough || lead == 0) {
 									out = append(out, &c12Layout{Shape: sh, Tracks: tracks, Mech: mech, Emsg: emsg, SegSidx: ss, Base: uint64(tm[0]), Cto: int32(tm[1]), LeadIn: lead, Gap: true})
 								}
@@ -707,7 +727,7 @@ func runC12(c *vf.Ctx) {
 	} else {
 		c.SetBudget(3 * 60 * 1e9)
 	}
-	c.Rule = "files are generated from an intended partition (ground truth by construction) with a raw writer: shapes of 1-3 segments x 1-2 fragments, 1-2 tracks, delimiter mechanism {styp, one top-level sidx, two sequential top-level sidx, mfra/tfra, none}, for the top-level indexes with and without a free box between index and first segment (first_offset != 0), emsg {none, first fragment of each segment, every fragment}, 0/1/2 sidx inside each styp segment, first decode time/composition offset {0/0, 7/0, 7/2}, 0 or 4 unused bytes at the start of each mdat, reference-track runs in 5 forms (explicit durations / tfhd default / trex default, one or two truns per traf); decoded with all four flag combinations (ISM, start-on-moof) by both decoders; partition, order, byte-identical segment-mode re-encode, then UpdateSidx(add, nonZeroEPT in {false,true}) + Encode through the API and through the add-sidx example (overlay driver), with the written index checked against the actual box positions by an independent walker. A case = (layout, flags, decoder)."
+	c.Rule = "files are generated from an intended partition (ground truth by construction) with a raw writer: shapes of 1-3 segments x 1-2 (thorough: 3) fragments, 1-2 tracks (video+audio in either order, the audio track in another timescale when it comes first), delimiter mechanism {styp, one top-level sidx, two sequential top-level sidx, mfra/tfra, none}, for the top-level indexes with and without a free box between index and first segment (first_offset != 0), emsg {none, first fragment of each segment, every fragment}, 0/1/2 sidx inside each styp segment, first decode time/composition offset {0/0, 7/0, 7/2}, 0 or 4 unused bytes at the start of each mdat, reference-track runs in 5 forms (explicit durations / tfhd default / trex default, one or two truns per traf); decoded with all four flag combinations (ISM, start-on-moof) by both decoders; partition, order, byte-identical segment-mode re-encode, then UpdateSidx(add, nonZeroEPT in {false,true}) + Encode through the API and through the add-sidx example (overlay driver), with the written index checked against the actual box positions by an independent walker. A case = (layout, flags, decoder)."
 	c.Bound = "<= 3 segments x <= 2 (thorough: 3) fragments x <= 2 tracks; 1-2 samples per fragment"
 	layouts := c12Layouts(thorough)
 	c.Set("layouts", len(layouts))
